@@ -1,6 +1,7 @@
 //! rlv: verification drivers around the real risinglight crate (built with feature `verif`).
 mod enc;
 mod handler;
+mod iso;
 mod kern;
 mod lab;
 mod opimpl;
@@ -14,6 +15,7 @@ fn main() {
     let cmd = args.get(1).map(|s| s.as_str()).unwrap_or("");
     match cmd {
         "sql" => sqlrun::main(&args[2..]),
+        "serve" => sqlrun::serve_main(&args[2..]),
         "lab" => lab::main(&args[2..]),
         "kern" => kern::main(&args[2..]),
         "sched" => sched::main(&args[2..]),
